@@ -96,15 +96,23 @@ CHECKS = {
         "assumptions": ["From/Limit are pre-filter index positions and MaxResults is post-filter (proto/docs)"],
     },
     "C17": {
-        "pkg": "conc", "run": "^TestC17", "level": "exploration", "overlay": "vsched", "tags": ["verifvsched"],
-        "shards": {"quick": 12, "thorough": 16},
+        "units": [
+            {"pkg": "conc", "run": "^TestC17", "overlay": "vsched", "tags": ["verifvsched"], "shards": {"quick": 12, "thorough": 16}},
+            # swamp/hydra level: lifecycle actions under injected file-operation faults (termination oracle with a stuck-close witness)
+            {"pkg": "life", "run": "^TestC17CloseFault", "overlay": "vfs", "tags": ["verifvfs"], "shards": {"quick": 8, "thorough": 16},
+             "timeout": {"quick": 1200, "thorough": 3000}},
+        ],
+        "level": "exploration",
         "technique": "property-based schedule perturbation (rapid-drawn pause/sleep/yield plans at AST-instrumented synchronisation sites) with a deadlock-witness oracle (goroutine provably parked)",
         "level_text": "Operation goroutines (BeginVigil..CeaseVigil) and waiters (WaitForActiveVigilsClosed) run on the real vigil while a generated plan delays goroutines at "
                       "the instrumented lock/cond/atomic sites; once every operation has ended no further broadcast can happen, so a waiter still parked in sync.Cond.Wait is "
                       "a lost wake-up. Detection is probabilistic (schedules are perturbed, not enumerated); a reported violation is real.",
-        "level_note": "Liveness is decided only as 'no generated schedule leaves a waiter provably parked'; the Go scheduler is not owned. Swamp/hydra-level waits (Destroy, "
-                      "WaitForGracefulClose, graceful stop) are exercised by the C16/C18 lifecycle harness, which reports hangs under those properties.",
-        "assumptions": ["after all operation goroutines returned nobody calls CeaseVigil again"],
+        "level_note": "Liveness is decided only as 'no generated schedule leaves a waiter provably parked'; the Go scheduler is not owned. A second unit drives swamp/hydra-level "
+                      "lifecycle actions (Swamp.Close, real idle close, Destroy, auto-destroy, graceful stop) through the in-process gateway while generated file-operation faults "
+                      "(vfs shim) hit the close path; it asserts termination only: a swamp that stays registered and closing while no goroutine is inside Close/Destroy (two samples) "
+                      "is a close that can never finish. The C16/C18 lifecycle harness additionally reports hangs it meets.",
+        "assumptions": ["after all operation goroutines returned nobody calls CeaseVigil again",
+                        "a swamp registered in hydra with IsClosing()=true and no goroutine inside swamp.Close/Destroy cannot finish closing"],
     },
     "C04": {
         "pkg": "files", "run": "^TestC04", "level": "exploration",
